@@ -80,8 +80,14 @@ func C13(tier common.Tier) int {
 			}
 			for _, pk := range pkgs {
 				for _, mix := range []e1.UseMix{{TestOnly: true, Allow: 4}, {TestOnly: true, Allow: 1, AnnOrder: 1}} {
-					for _, encl := range []e1.UseEncl{e1.UEPlain, e1.UEPkgVar, e1.UEMethQ} {
+					for _, encl := range []e1.UseEncl{e1.UEPlain, e1.UEPkgVar, e1.UEMethQ, e1.UETestOnlyMeth, e1.UETestOnlyFunc} {
+						// the @testonly enclosers (their receiver is spelled through an alias under the alias spellings; everything
+						// in them is exempt for C03, nothing for C04): single statements and core pairs, first file only
+						light := encl == e1.UETestOnlyMeth || encl == e1.UETestOnlyFunc
 						for _, file := range []int{0, 1} {
+							if light && file == 1 {
+								continue
+							}
 							// all sequences of length <= 2 over the whole alphabet (quick: pairs with a core statement); thorough adds length 3 over the core statements
 							var coreIdx []int
 							for _, i := range all {
@@ -90,6 +96,15 @@ func C13(tier common.Tier) int {
 								}
 							}
 							visit := func(emit func(st []int)) {
+								if light {
+									seqs(all, 1, emit)
+									seqs(coreIdx, 2, func(st []int) {
+										if len(st) == 2 {
+											emit(st)
+										}
+									})
+									return
+								}
 								seqs(all, 2, func(st []int) {
 									if depth == 1 && len(st) == 2 && !useSites[st[0]].Core && !useSites[st[1]].Core {
 										return // quick tier: pairs with at least one core statement
